@@ -142,6 +142,9 @@ def _run(sel, w1, w2, a1, b1, c1, a2, b2, c2, i):
             return False
         if check_package(pkg):
             return False
+        from vlib.designcheck import roundtrip
+        if not roundtrip(pkg)[0]:
+            return False  # (C11 rider: the resolved slices / concatenations survive from_proto + to_proto unchanged)
         nets, _ = pkg_nets(pkg)
         cl = {}
         for g in nets:
@@ -183,7 +186,7 @@ def _parts(sels, steps1):
     return parts_product([(f"s{s}", f"sel == {s}") for s in sels], [(f"c{c}".replace("-", "m"), f"c1 == {c}") for c in steps1])
 
 
-@harness("C03", args="sel: int, w1: int, w2: int, a1: int, b1: int, c1: int, a2: int, b2: int, c2: int, i: int",
+@harness("C03", also=("C11",), args="sel: int, w1: int, w2: int, a1: int, b1: int, c1: int, a2: int, b2: int, c2: int, i: int",
          pre=_pre, pre_order="base_first",
          tiers={
              # quick: in-range bounds only (out-of-range bounds are rejected before resolution: kernels)
